@@ -6,7 +6,7 @@ HARNESS_TIMEOUT = {'quick': 900, 'thorough': 7200}
 
 # files whose failure means the executable model itself does not build
 MODEL_FILES = ['theories/Base.v', 'theories/Lines.v', 'theories/Lifecycle.v', 'theories/Regex.v', 'theories/Claims.v',
-               'theories/Obs.v', 'theories/CaseClaims.v', 'theories/RunC14.v', 'theories/RunHist.v', 'theories/RunCodec.v', 'theories/RunEv.v', 'theories/RunCose.v', 'theories/RunEmb.v', 'theories/Embedded.v', 'theories/RunReg.v', 'theories/Registry.v', 'theories/Json.v', 'theories/Evidence.v', 'theories/Gates.v', 'theories/Cose.v', 'theories/Cbor.v', 'theories/Utf8.v', 'theories/Tags.v', 'theories/Wire.v', 'theories/Codec.v', 'theories/Run.v', 'gen/GenTags.v', 'spec/SpecTags.v', 'spec/SpecTables.v', 'gen/GenConsts.v']
+               'theories/Obs.v', 'theories/CaseClaims.v', 'theories/RunC14.v', 'theories/RunHist.v', 'theories/RunCodec.v', 'theories/RunEv.v', 'theories/RunCose.v', 'theories/RunEmb.v', 'theories/Embedded.v', 'theories/RunReg.v', 'theories/Registry.v', 'theories/Json.v', 'theories/JsonCodec.v', 'theories/RunJson.v', 'theories/Evidence.v', 'theories/Gates.v', 'theories/Cose.v', 'theories/Cbor.v', 'theories/Utf8.v', 'theories/Tags.v', 'theories/Wire.v', 'theories/Codec.v', 'theories/Run.v', 'gen/GenTags.v', 'spec/SpecTags.v', 'spec/SpecTables.v', 'gen/GenConsts.v']
 
 TRUSTED_BASE = [
     'Coq 8.16.1 kernel (coqc; vm_compute used in tie obligations; no native_compute)',
@@ -82,6 +82,37 @@ def _claims_texts_utf8(tok):
             if len(f) == 5:
                 ok = ok and _utf8_ok(f[0]) and _utf8_ok(f[2]) and _utf8_ok(f[4])
     return ok
+
+
+def _c12_oracle(inp, obs, extra):
+    """C12 evaluated on the implementation's own observations of an RTJ case"""
+    f = inp.split(' ')
+    if f[0] != 'RTJ' or not extra:
+        return None
+    ex = dict(t.split('=', 1) for t in extra.split(' ') if '=' in t)
+    if ex.get('ev') == '0':
+        return 'Evidence.MarshalJSON / repeated EncodeClaimsToJSON differ from EncodeClaimsToJSON'
+    if ex.get('gate') == '0':
+        return 'a validating JSON entry point disagrees with its non-validating twin followed by Validate'
+    p1 = '5053415f494f545f50524f46494c455f31'
+    p2 = '687474703a2f2f61726d2e636f6d2f7073612f322e302e30'
+    if f[1] == '1' and f[13] != p1:
+        return None
+    if f[1] == '2' and (f[13] != p2 or f[2] != 's' + p2):
+        return None
+    orig = ex.get('orig', '').split(',')
+    if not orig or orig[0] != 'ok':
+        return None
+    o = obs.split(' ')
+    if o[0] == 'err':
+        return 'a valid claims-set failed to encode to JSON'
+    if len(o) < 2 or o[1] != 'ok':
+        return 'the JSON encoding of a valid claims-set is rejected by DecodeClaimsFromJSON'
+    if o[2:13] != orig:
+        return 'getter results differ after the JSON round trip: %s vs %s' % (' '.join(o[2:13]), ' '.join(orig))
+    if o[-1] != 'cross=same':
+        return 'CBOR -> claims -> JSON -> claims -> CBOR does not reproduce the bytes (%s)' % o[-1]
+    return None
 
 
 def _c09_oracle(inp, obs, extra):
@@ -239,6 +270,12 @@ PROPS = {
         cone=WIRE_CONE, level='proof', oracle=_c09_oracle, signature=_c09_signature, kernel_maxlen=9000,
         nontrivial=lambda i, o: not o.startswith('ok'), classify=lambda i, o: 'P%s valid=%s' % (i.split(' ')[1], o.split(' ')[0][:2]),
         rule='valid claims-sets of both profiles (generator of C03) and directly constructed invalid ones (1..2 deviations from the C01 alternatives, incl. invalid UTF-8 texts): EncodeClaimsToCBOR, DecodeClaimsFromCBOR of the result, all getters before and after, re-encode; the property is evaluated on the implementation (oracle) and every observation is compared with the model; non-trivial = the input claims-set is not valid',
+    ),
+    'C12': dict(
+        cone=WIRE_CONE + ['theories/JsonProofs.v'], level='proof', oracle=_c12_oracle, kernel_maxlen=5000,
+        nontrivial=lambda i, o: ' e' in o or o.startswith('err') or '22' in i.split(' ')[12] or '5c' in i.split(' ')[12] or i.split(' ')[2] == '_',
+        classify=lambda i, o: 'P%s profile=%s decode=%s' % (i.split(' ')[1], 'absent' if i.split(' ')[2] == '_' else 'set', (o.split(' ') + ['-'])[1][:3]),
+        rule='valid claims-sets of both profiles (generator of C03: random optional subsets, hash sizes, 0..4 components, negative client ids, profile-1 sets with no profile claim) with verification-service / measurement-type / description texts drawn from non-ASCII, quote, backslash, control, HTML-special, emoji and DEL samples, plus sets with one claim replaced by a C01 alternative: EncodeClaimsToJSON (JSON tree compared member by member, in order, with the model), DecodeClaimsFromJSON of it (all getters compared with the model and, for valid sets, with the getters of the original), CBOR -> claims -> JSON -> claims -> CBOR byte equality, Evidence.MarshalJSON, ValidateAndEncodeClaimsToJSON, DecodeAndValidateClaimsFromJSON; non-trivial = something fails, or a text needs JSON escaping, or no explicit profile claim',
     ),
     'C11': dict(
         cone=CLAIMS_CONE + ['theories/SetterProofs.v'], level='proof',
